@@ -54,6 +54,8 @@ def run(tier, seed):
         scripts.append(daemon.map_script(rnd, pool, peers=peers, nreq=rnd.choice([3, 5, 8, 14])))
     for t, blk in blocked:
         scripts.append(daemon.overflow_script(rnd, t, blk))
+    for _ in range(12 if tier == 'thorough' else 2):
+        scripts.append(daemon.many_uids_script(rnd))
     recs = daemon.run_many(drv, scripts, wd)
     trace = f'{wd}/map.ndjson'
     with open(trace, 'w') as f:
